@@ -47,13 +47,21 @@ def run(tier):
             for cpu in (('accel', 'generic') if mtype == FFT64 else ('accel',)):
                 bad_w = bad_v = None
                 n = 0
-                shapes = [sh for sh in shapes_for(name, tier) if sh['N'] <= (16 if tier == 'quick' else 32)]
-                for sh in shapes:
+                shapes = [(sh, None) for sh in shapes_for(name, tier) if sh['N'] <= (16 if tier == 'quick' else 32)]
+                # the documented in-place patterns: same definition, inputs read from the shared buffer, a location
+                # the call does not write keeps its initial content
+                for al in spec.get('alias', []):
+                    if mtype == NTT120 and 'ntt120' not in spec.get('alias_modules', ['fft64', 'ntt120']):
+                        continue
+                    shapes += [(sh, tuple(al)) for sh in shapes_for(name, tier, alias=al) if sh['N'] <= (8 if tier == 'quick' else 16)]
+                for sh, al in shapes:
                     try:
-                        r = box.instantiate(name, sh, cpu, mtype, expand='values')
+                        r = box.instantiate(name, sh, cpu, mtype, alias=al, expand='values')
                     except (Unsupported, NeedEnum) as e:
                         R.broke('%s %s: %s' % (name, sh, e))
                         continue
+                    if al:
+                        sh = dict(sh, aliased='%s==%s' % al)
                     nruns += 1
                     if r.status != 'ok':
                         bad_w = bad_w or (sh, 'call %s' % (r.status,))
@@ -66,6 +74,13 @@ def run(tier):
                         for j in range(N):
                             want.add(limb_off(res, i) + 8 * j)
                     got = set(st)
+                    nm = {'a': 'a', 'b': 'b'}
+                    if al:
+                        nm[al[1]] = 'res'
+                        if got <= want and not any(st[o][0] != 8 for o in got):
+                            for o in want - got:
+                                st[o] = (8, sym('in', 'res', o, 8))
+                            got = set(st)
                     if got != want or any(st[o][0] != 8 for o in got):
                         extra, miss = sorted(got - want), sorted(want - got)
                         bad_w = bad_w or (sh, 'write set differs from the first res_size limbs: extra offsets %s, missing %s' % (
@@ -81,8 +96,8 @@ def run(tier):
                                 if has_unknown(v):
                                     bad_v = bad_v or (sh, 'limb %d coefficient %d holds an uninterpreted value' % (i, j))
                                     continue
-                                pa = cn.ring(sym('in', 'a', limb_off(a, i) + 8 * j, 8), 64) if (a is not None and i < a.nlimbs) else {}
-                                pb = cn.ring(sym('in', 'b', limb_off(b, i) + 8 * j, 8), 64) if (b is not None and i < b.nlimbs) else {}
+                                pa = cn.ring(sym('in', nm['a'], limb_off(a, i) + 8 * j, 8), 64) if (a is not None and i < a.nlimbs) else {}
+                                pb = cn.ring(sym('in', nm['b'], limb_off(b, i) + 8 * j, 8), 64) if (b is not None and i < b.nlimbs) else {}
                                 if op == 'zero':
                                     exp = {}
                                 elif op == 'copy':
@@ -115,7 +130,7 @@ def run(tier):
                                     (mono, c), = p.items()
                                     if len(mono) == 1 and c in (1, (1 << 64) - 1):
                                         key = [k for k, aid in cn.atoms.items() if aid == mono[0]][0]
-                                        if key[0] == 'in' and key[1] == 'a' and limb_off(a, i) <= key[2] < limb_off(a, i) + 8 * N:
+                                        if key[0] == 'in' and key[1] == nm['a'] and limb_off(a, i) <= key[2] < limb_off(a, i) + 8 * N:
                                             srcs.append(key[2])
                                             ok = True
                                 if not ok:
